@@ -9,8 +9,8 @@ Engine T x G.  Three families of pool cases, every one enumerated completely:
 * 'word'    : one word over {-2,0,1,3}: calc_roll_av_vals for every window 1..len and every mode,
               calc_step_fn_vals_error for pow 1,2 and dir None/up/down, calc_step_fn_steps_vals for every
               interior split and for ind=None;
-* 'spectra' : one (site class, Z, R, N): c_h_factor / sd_nzs / t_eff on the period grid; 'reject': the
-              inputs the functions have to refuse.
+* 'spectra' : one (site class, Z, R, N): c_h_factor / sd_nzs / t_eff on the period grid (scalar, ndarray, list, tuple)
+              and on whole-second periods in integer-typed containers; 'reject': the inputs the functions have to refuse.
 
 References are written from the property statement: explicit bracketing in exact rationals, window sums
 with clamped indices, split sums about the exact side means.  The design-spectrum claims are relations
@@ -39,6 +39,10 @@ ZRN = ((0.4, 1.0, 1.0), (0.13, 1.8, 1.2))
 BOUNDS_T = (0.1, 0.3, 0.56, 1.0, 1.5, 3.0)     # every segment boundary of the three site classes
 EPS_T = 1e-12
 INTERIOR_T = (0.0, 1e-9, 0.05, 0.2, 0.4, 0.8, 1.2, 2.0, 2.5, 4.5, 10.0)
+# whole-second periods handed over in integer-typed containers (and one list mixing ints and floats, taken from the
+# float grid): "all periods T >= 0" includes T = 0, 1, 2, ... and a caller writes them [0, 1, 2, 3] or np.arange(6)
+INT_T = (0, 1, 2, 3, 4, 5, 10)
+MIXED_T = (0, 0.4, 1, 2.5, 3)
 G = 9.81
 CONT_TOL = 0.005
 
@@ -76,11 +80,14 @@ def build(tier, seed):
         'rule': 'interp: 5 strictly increasing node sets x every column word over {-1,0,4}^nodes (as column 0 of a '
                 '2- or 3-column table) x every query of the menu; word: all words over {-2,0,1,3} of length 1..%d x '
                 'window 1..len x 4 modes x 2 containers, and (length>=3) pow in {1,2} x dir in {None,up,down} x every '
-                'split; spectra: 3 site classes x 2 (Z,R,N) x %d periods x scalar/array/list forms.  non-trivial = '
-                'table not identically zero / word not constant / every spectra case' % (L, len(period_grid())),
+                'split; spectra: 3 site classes x 2 (Z,R,N) x %d periods x scalar/array/list/tuple forms, plus the whole-second '
+                'periods %s as int list / int tuple / int64 and int32 ndarray (and one-element and mixed int-float lists) '
+                'through c_h_factor and sd_nzs.  non-trivial = table not identically zero / word not constant / every '
+                'spectra case' % (L, len(period_grid()), list(INT_T)),
         'bounds': {'columns': COLS, 'node_sets': [list(n) for _, n in NODESETS], 'word_alphabet': SIGMA,
                    'max_len': L, 'modes': MODES, 'pow': [1, 2], 'dir': [None, 'up', 'down'], 'site': SITE,
-                   'ZRN': ZRN, 'periods': period_grid()},
+                   'ZRN': ZRN, 'periods': period_grid(), 'integer_periods': INT_T, 'mixed_periods': MIXED_T,
+                   'integer_period_containers': ['list', 'tuple', 'ndarray int64', 'ndarray int32']},
         'required_classes': [
             'nodes-single', 'nodes-two', 'nodes-uniform', 'nodes-nonuniform', 'nodes-wide', 'q-on-node',
             'q-interior', 'q-below-range', 'q-above-range', 'q-nearer-upper-node', 'q-nearer-lower-node',
@@ -92,8 +99,10 @@ def build(tier, seed):
             'step-dir-penalised', 'step-dir-unchanged', 'step-dir-ambiguous', 'levels-interior',
             'levels-auto-interior', 'levels-auto-edge',
             'spectra-at-boundary', 'spectra-interior', 'spectra-T0', 'spectra-beyond-corner', 'spectra-scalar-form',
-            'spectra-array-form', 'spectra-list-form', 'sd-array-form', 'teff-below-corner', 'teff-beyond-corner',
-            'reject-negative-period', 'reject-site-class'],
+            'spectra-array-form', 'spectra-list-form', 'spectra-tuple-form', 'spectra-int-list-form',
+            'spectra-int-tuple-form', 'spectra-int-ndarray-form', 'sd-array-form', 'sd-int-container-form',
+            'teff-below-corner', 'teff-beyond-corner',
+            'reject-negative-period', 'reject-negative-int-period', 'reject-site-class'],
         'assumptions': [
             'node sets, table entries, sample values, window sizes, powers and (Z,R,N) outside the menus are not '
             'examined; decreasing node sets and interp_left queries below the first node are outside the documented '
@@ -108,7 +117,9 @@ def build(tier, seed):
             'ind=None: any arg-min of the exact pow=1 error is accepted; a level on an empty side is unconstrained',
             'design spectra: only relations between c_h_factor, sd_nzs and t_eff are checked (no external table); '
             'corner displacement d_c = sd_nzs(3.0) * 9.81 / (2 pi)^2',
-            'sd_nzs is documented as "period: float or array", so array periods are in its domain'],
+            'sd_nzs is documented as "period: float or array", so array periods are in its domain',
+            'a bare Python int as scalar period (c_h_factor(2)) is not examined: the scalar form is exercised with float '
+            'and numpy.float64 only; whole-second periods are examined inside list / tuple / ndarray containers'],
     }
 
 
@@ -503,14 +514,14 @@ def run_spectra(r, case):
                 ch[t] = float(out)
     if len(ch) == len(ts):
         want = [ch[t] for t in ts]
-        for form, arg in (('ndarray', np.array(ts)), ('list', list(ts)), ('np.float64', None)):
+        for form, arg in (('ndarray', np.array(ts)), ('list', list(ts)), ('tuple', tuple(ts)), ('np.float64', None)):
             sub = dict(base, form=form)
             r.states += 1
             r.transitions += 1
             if form == 'np.float64':
                 ok, out = r.call('ch.forms', sub, lambda: [_quiet(ds.c_h_factor, np.float64(t), sc) for t in ts])
             else:
-                r.cls('spectra-array-form' if form == 'ndarray' else 'spectra-list-form')
+                r.cls('spectra-array-form' if form == 'ndarray' else 'spectra-%s-form' % form)
                 ok, out = r.call('ch.forms', sub, _quiet, ds.c_h_factor, arg, sc)
             if ok:
                 r.expect_close('ch.forms', sub, out, want, rtol=1e-12, atol=0.0)
@@ -533,6 +544,66 @@ def run_spectra(r, case):
         ok, out = r.call('sd-array-form', sub, ds.sd_nzs, np.array(arr), sc, z, rf, nf)
         if ok and all(t in sd for t in arr):
             r.expect_close('sd-array-form', sub, out, [sd[t] for t in arr], rtol=1e-12, atol=0.0)
+
+    # ---- integer-typed (and mixed) period containers: same C_h / S_d as the scalar float call for the same period, and
+    #      the identity S_d = C_h T^2 Z N R between the two array results themselves
+    chs, sds = dict(ch), dict(sd)
+    for t in INT_T:
+        tf = float(t)
+        if tf not in ts:     # scalar float reference executions for the whole seconds that are not on the float grid
+            sub = dict(base, T=tf, form='float')
+            r.states += 1
+            ok, out = r.call('ch.forms', sub, _quiet, ds.c_h_factor, tf, sc)
+            if ok and r.expect('ch.forms', sub, np.ndim(out) == 0 and _finite(out) and float(out) > 0,
+                               'scalar period does not give a positive finite scalar: %r' % (out,), observed=out):
+                chs[tf] = float(out)
+            sub = dict(base, T=tf)
+            r.states += 1
+            ok, out = r.call('sd-identity', sub, ds.sd_nzs, tf, sc, z, rf, nf)
+            if ok and tf in chs:
+                r.transitions += 1
+                if r.expect_close('sd-identity', sub, out, chs[tf] * tf ** 2 * z * nf * rf, rtol=1e-12, atol=0.0):
+                    sds[tf] = float(out)
+    containers = (('list-int', 'whole-seconds', lambda: [int(t) for t in INT_T], INT_T),
+                  ('tuple-int', 'whole-seconds', lambda: tuple(int(t) for t in INT_T), INT_T),
+                  ('ndarray-int64', 'whole-seconds', lambda: np.array(INT_T, dtype=np.int64), INT_T),
+                  ('ndarray-int32', 'whole-seconds', lambda: np.array(INT_T, dtype=np.int32), INT_T),
+                  ('list-int', [2], lambda: [2], (2,)),
+                  ('ndarray-int64', [3], lambda: np.array([3], dtype=np.int64), (3,)),
+                  ('list-mixed-int-float', 'mixed', lambda: list(MIXED_T), MIXED_T))
+    for form, name, mk, tvals in containers:
+        tfl = [float(t) for t in tvals]
+        sub = dict(base, T=name, form=form)
+        r.cls('spectra-int-%s-form' % form.split('-')[0])
+        r.states += 2
+        arg = mk()
+        ok1, out_ch = r.call('ch.forms', sub, _quiet, ds.c_h_factor, arg, sc)
+        if ok1:
+            r.expect('ch.argument-unchanged', sub, _same_container(arg, mk()),
+                     'c_h_factor modified the period container', observed=arg, expected=mk())
+            if all(t in chs for t in tfl):
+                r.transitions += 1
+                ok1 = r.expect_close('ch.forms', sub, out_ch, [chs[t] for t in tfl], rtol=1e-12, atol=0.0,
+                                     what='C_h for periods %r given as %s vs the scalar float calls' % (list(tvals), form))
+        arg = mk()
+        r.cls('sd-int-container-form')
+        ok2, out_sd = r.call('sd-array-form', sub, ds.sd_nzs, arg, sc, z, rf, nf)
+        if ok2:
+            r.expect('sd.argument-unchanged', sub, _same_container(arg, mk()),
+                     'sd_nzs modified the period container', observed=arg, expected=mk())
+            if all(t in sds for t in tfl):
+                r.transitions += 1
+                ok2 = r.expect_close('sd-array-form', sub, out_sd, [sds[t] for t in tfl], rtol=1e-12, atol=0.0,
+                                     what='S_d for periods %r given as %s vs the scalar float calls' % (list(tvals), form))
+        if ok1 and ok2:
+            r.transitions += 1
+            try:
+                want = [float(c) * t ** 2 * z * nf * rf for c, t in zip(np.asarray(out_ch, dtype=float), tfl)]
+            except Exception:
+                r.fail('sd-identity', sub, 'C_h result cannot be combined with the periods', observed=out_ch)
+                continue
+            r.expect_close('sd-identity', sub, out_sd, want, rtol=1e-12, atol=0.0,
+                           what='sd_nzs(periods) vs c_h_factor(periods) T^2 Z N R, both with periods given as %s' % form)
 
     # ---- continuity to table precision across every segment boundary
     for fname, tab in (('ch', ch), ('sd', sd)):
@@ -590,6 +661,18 @@ def _finite(x):
         return False
 
 
+def _same_container(a, b):
+    """a (after the call) is still what a freshly built b is: type, dtype, element types and values."""
+    try:
+        if type(a) is not type(b):
+            return False
+        if isinstance(a, np.ndarray):
+            return a.dtype == b.dtype and a.shape == b.shape and a.tobytes() == b.tobytes()
+        return len(a) == len(b) and all(type(x) is type(y) and x == y for x, y in zip(a, b))
+    except Exception:
+        return False
+
+
 def run_reject(r, case):
     ds = design_spectra
     r.nontrivial += 1
@@ -602,6 +685,14 @@ def run_reject(r, case):
             must_raise(r, 'rejects.negative-period', {'fn': 'c_h_factor', 'T': [0.5, t], 'sc': sc, 'form': 'ndarray'},
                        ds.c_h_factor, np.array([0.5, t]), sc)
             must_raise(r, 'rejects.negative-period', {'fn': 'sd_nzs', 'T': t, 'sc': sc}, ds.sd_nzs, t, sc, 0.4, 1.0, 1.0)
+        for form, arg in (('list-int', [1, -1]), ('ndarray-int64', np.array([1, -1], dtype=np.int64))):
+            r.states += 2
+            r.cls('reject-negative-period', 2)
+            r.cls('reject-negative-int-period', 2)
+            must_raise(r, 'rejects.negative-period', {'fn': 'c_h_factor', 'T': [1, -1], 'sc': sc, 'form': form},
+                       ds.c_h_factor, arg, sc)
+            must_raise(r, 'rejects.negative-period', {'fn': 'sd_nzs', 'T': [1, -1], 'sc': sc, 'form': form},
+                       ds.sd_nzs, arg, sc, 0.4, 1.0, 1.0)
     for sc in ('B', 'X'):
         r.states += 4
         r.cls('reject-site-class', 4)
@@ -648,8 +739,11 @@ def snippet(case, v):
     if k == 'spectra':
         return head + ("sc = case['sc']; z, r_, n = case['zrn']\n"
                        "T = sub.get('T', 3.0); T = T if isinstance(T, float) else np.array([0.5, 2.0])\n"
+                       "if 'int' in str(sub.get('form')): T = {'whole-seconds': [0, 1, 2, 3, 4, 5, 10], 'mixed': [0, 0.4, 1, 2.5, 3]}.get(str(sub['T']), sub['T'])\n"
+                       "if str(sub.get('form')).startswith('ndarray-int'): T = np.array(T, dtype=sub['form'][8:])\n"
+                       "if str(sub.get('form')).startswith('tuple') and not isinstance(T, float): T = tuple(T)\n"
                        "print(ds.sd_nzs(T, sc, z, r_, n))\n"
-                       "print(ds.c_h_factor(T if isinstance(T, float) else list(T), sc))\n"
+                       "print(ds.c_h_factor(T if isinstance(T, float) or 'int' in str(sub.get('form')) else list(T), sc))\n"
                        "d_c = ds.sd_nzs(3.0, sc, z, r_, n) * 9.81 / (2 * np.pi) ** 2\n"
                        "print(ds.t_eff(sub.get('frac', 0.5) * d_c, sc, z, r_, n))\n")
     return head + "print(getattr(ds, sub['fn'])(*([sub.get('T', sub.get('d'))] + [sub['sc']] + ([0.4, 1.0, 1.0] if sub['fn'] != 'c_h_factor' else []))))\n"
